@@ -137,6 +137,7 @@ def select(name):
         "momentum_lag": lambda: [A.SelectAll(), A.SelectMomentum(1, lookback=D(days=3), lag=D(days=1), sort_descending=False)],
         "statn": lambda: [A.SelectAll(), A.SetStat("stat"), A.SelectN(2, filter_selected=True)],
         "statn_lag": lambda: [A.SelectAll(), A.SetStat("stat", lag=D(days=1)), A.SelectN(0.5, filter_selected=True)],
+        "statn_sparse": lambda: [A.SelectAll(), A.SetStat("stat_sparse", lag=D(days=1)), A.SelectN(2, filter_selected=True)],
         "where": lambda: [A.SelectWhere("signal")],
         "randomly": lambda: [A.SelectAll(), A.SelectRandomly(2)],
         "regex": lambda: [A.SelectAll(), A.SelectRegex("^[ab]$")],
@@ -145,7 +146,7 @@ def select(name):
     return m[name]()
 
 
-SELECTS = ["all", "these", "hasdata", "momentum", "momentum_lag", "statn", "statn_lag", "where", "randomly", "regex", "types"]
+SELECTS = ["all", "these", "hasdata", "momentum", "momentum_lag", "statn", "statn_lag", "statn_sparse", "where", "randomly", "regex", "types"]
 
 
 def weigh(name):
@@ -250,10 +251,63 @@ def additional(idx, spec, data):
         w = {"a": 0.25 + 0.125 * (i % 3), "b": 0.25, "c": np.nan if np.isnan(data["c"].iloc[i]) else 0.125}
         rows[idx[i]] = w
     wt = pd.DataFrame(rows).T
-    ad = {"stat": stat, "signal": signal, "wt": wt}
+    # a statistic that is only published every third date (e.g. weekly scores on daily data)
+    stat_sparse = stat.iloc[::3]
+    ad = {"stat": stat, "signal": signal, "wt": wt, "stat_sparse": stat_sparse}
     if spec.get("spread") is not None:
         ad["bidoffer"] = pd.DataFrame(float(spec["spread"]), index=idx, columns=cols)
     return ad
+
+
+def _perturb_frame(obj, cut, kind, cell=None):
+    """change values dated after `cut` only; the index is never touched"""
+    if isinstance(obj, dict):
+        return {k: _perturb_frame(v, cut, kind, cell) for k, v in obj.items()}
+    if not isinstance(obj, (pd.DataFrame, pd.Series)) or not isinstance(obj.index, pd.DatetimeIndex):
+        return obj
+    out = obj.copy()
+    fut = [i for i, lab in enumerate(out.index) if lab > cut]
+    if not fut:
+        return out
+    if isinstance(out, pd.Series):
+        vals = out.values.astype(float).copy()
+        if kind == "scale":
+            for j, i in enumerate(fut):
+                vals[i] = vals[i] * (1.25 + 0.0625 * (j % 3))
+        elif kind == "reverse":
+            vals[fut] = vals[fut][::-1]
+        return pd.Series(vals, index=out.index, name=out.name)
+    isbool = all(out[c].dtype == bool for c in out.columns)
+    arr = out.to_numpy(dtype=object if isbool else float).copy()
+    if kind == "scale":
+        for j, i in enumerate(fut):
+            for k in range(arr.shape[1]):
+                arr[i, k] = (not arr[i, k]) if isbool else arr[i, k] * (1.25 + 0.125 * k + 0.0625 * (j % 3))
+    elif kind == "reverse":
+        arr[fut, :] = arr[fut[::-1], :]
+    elif kind == "swap":
+        if arr.shape[1] >= 2:
+            arr[fut, :] = np.roll(arr[fut, :], 1, axis=1)
+    elif kind == "cell":
+        i, k = cell
+        if i < len(fut) and k < arr.shape[1]:
+            v = arr[fut[i], k]
+            arr[fut[i], k] = (not v) if isbool else (v * 1.5 + 0.25 if v == v else v)
+    res = pd.DataFrame(arr, index=out.index, columns=out.columns)
+    return res.astype(bool) if isbool else res.astype(float)
+
+
+def perturb(data, ad, p):
+    cut = pd.Timestamp(p["cut"])
+    kind = p["kind"]
+    cell = p.get("cell")
+    only = p.get("table")
+    if only in (None, "data"):
+        data = _perturb_frame(data, cut, kind, cell)
+    ad2 = {}
+    for k, v in ad.items():
+        ad2[k] = _perturb_frame(v, cut, kind, cell) if only in (None, k) else v
+    return data, ad2
 
 
 def build(spec):
@@ -298,9 +352,23 @@ def build(spec):
         s11 = bt.Strategy("s11", stack(st, idx), ["a", "b"])
         s1 = bt.Strategy("s1", [A.RunWeekly(), A.WeighSpecified(s11=0.75, d=0.25), A.Rebalance()], [s11, "d"])
         s = bt.Strategy("r", [A.RunMonthly(), A.WeighSpecified(s1=0.75), A.Rebalance()], [s1])
+    elif tree == "fi_hedge":
+        kids = [bt.FixedIncomeSecurity("a"), bt.CouponPayingSecurity("b"), bt.HedgeSecurity("d", multiplier=spec.get("mult_d", 1))]
+        w = spec.get("fi_weights", {"a": 0.5, "b": 0.5})
+        algos = gate(st.get("gate", "daily"), idx) + [A.SetNotional("notional"), A.WeighSpecified(**w), A.Rebalance(), A.UpdateRisk("M1"), A.SelectThese(["d"]), A.HedgeRisks(["M1"]), A.UpdateRisk("M1")]
+        s = bt.FixedIncomeStrategy("r", algos, children=kids)
     else:
         raise KeyError(tree)
     ad = additional(idx, spec, data)
+    if tree == "fi_hedge":
+        n = len(idx)
+        ad["coupons"] = pd.DataFrame({"b": [0.125 * ((i * 3) % 5) for i in range(n)]}, index=idx)
+        ad["cost_long"] = pd.DataFrame({"b": [0.0625 * (i % 3) for i in range(n)]}, index=idx)
+        ad["cost_short"] = pd.DataFrame({"b": [0.03125 * ((i + 1) % 4) for i in range(n)]}, index=idx)
+        ad["notional"] = pd.Series([64.0 + 16.0 * (i % 4) for i in range(n)], index=idx)
+        ad["unit_risk"] = {"M1": pd.DataFrame({"a": [1.0 + 0.25 * (i % 3) for i in range(n)], "b": [0.5 + 0.125 * (i % 4) for i in range(n)], "d": [1.0 + 0.5 * ((i * 2) % 3) for i in range(n)]}, index=idx)}
+    if spec.get("perturb"):
+        data, ad = perturb(data, ad, spec["perturb"])
     fee = spec.get("fee")
     spy = T.FeeSpy(fee) if fee not in (None, "none") else None
     b = bt.Backtest(
@@ -440,7 +508,7 @@ def family(tier, seed, nested_full=False):
             if st["mod"] == "limitweights" and st["weigh"] in ("specified", "short", "target"):
                 # ffn.limit_weights is defined for weights that sum to one only
                 continue
-            if tree in ("nested_sec", "deep") and (st["select"] in ("where", "statn", "statn_lag") or st["weigh"] == "target"):
+            if tree in ("nested_sec", "deep") and (st["select"] in ("where", "statn", "statn_lag", "statn_sparse") or st["weigh"] == "target"):
                 # the shared tables name tickers outside these sub-strategies' declared universe
                 continue
             sp = {"tree": tree, "stack": st, "data": data, "alpha": alpha, "integer": integer, "capital": capital, "rng": seed % 4}
